@@ -105,6 +105,27 @@ Theorem C11_recursion_unbounded_refuted :
 Proof. exact recursion_unbounded. Qed.
 Print Assumptions C11_recursion_unbounded_refuted.
 
+(* (e) The flow limit can be BYPASSED (second recorded finding).  For every d >= 1 the token stream of
+         "[ ? ] , " * (d-1) ++ "[ ? ] " ++ "]" * d
+   — 5d+1 tokens; the scanner's flow level along it (+1 at a flow collection start, -1 at a flow collection
+   end) never exceeds 1, so increase_flow_level never fails — is accepted by the parser model and its events
+   nest d+1 deep: flow_sequence_entry_mapping_key consumes the "]" that ends the empty key "?", the parser
+   stays inside the sequence and the next "[" opens a sequence INSIDE it. *)
+Theorem C11_flow_limit_bypass_family : forall d keep se,
+  1 <= d ->
+  length (qflow_tokens d) = 5 * d + 1
+  /\ tok_flow_max (qflow_tokens d) = 1
+  /\ parse_tokens (qflow_tokens d) se keep = (evsp (qflow_events d), PDone)
+  /\ max_nesting (qflow_events d) = d + 1.
+Proof. exact flow_limit_bypass. Qed.
+Print Assumptions C11_flow_limit_bypass_family.
+
+(* so "a token stream whose flow level stays within L is nested at most L+1 deep" is false for every L >= 1,
+   in particular for L = FLOW_LEVEL_MAX: theorem (c) does not bound the nesting of flow collections *)
+Theorem C11_flow_limit_bounds_nesting_refuted : forall L, 1 <= L -> ~ flow_limit_bounds_nesting L.
+Proof. exact flow_limit_does_not_bound_nesting. Qed.
+Print Assumptions C11_flow_limit_bounds_nesting_refuted.
+
 (* ---- non-vacuity / anchoring examples ---- *)
 (* the limit the theorems speak about is the one of the code: u8 *)
 Example C11_flow_limit_is_255 : Consts.FLOW_LEVEL_MAX = 255%N.
@@ -142,3 +163,31 @@ Proof. reflexivity. Qed.
 Example C11_depth_measures :
   max_nesting (seq_events 3) = 3 /\ ydepth (YSeq [YMap [(YBad, YSeq [YBad])]]) = 3 /\ ydepth (YSeq []) = 0.
 Proof. repeat split; reflexivity. Qed.
+(* the bypass family, concretely (d = 3): the text, what the SCANNER MODEL makes of it, its flow level, and the
+   three nested sequences the parser model delivers *)
+Example C11_bypass_3_text :      (* the code points of  [ ? ] , [ ? ] , [ ? ] ]]]  *)
+  qflow_text 3 = [91; 32; 63; 32; 93; 32; 44; 32; 91; 32; 63; 32; 93; 32; 44; 32; 91; 32; 63; 32; 93; 32; 93; 93; 93]%N.
+Proof. reflexivity. Qed.
+Example C11_bypass_3_scanned :
+  map snd (fst (scan_str (qflow_text 3))) = map snd (qflow_tokens 3) /\ snd (scan_str (qflow_text 3)) = SEnded.
+Proof. vm_compute. split; reflexivity. Qed.
+Example C11_bypass_3_flow_level : tok_flow_max (qflow_tokens 3) = 1.
+Proof. reflexivity. Qed.
+Example C11_bypass_3_events :
+  evs_of (fst (parse_tokens (qflow_tokens 3) SEnded false))
+  = [EStreamStart; EDocumentStart false;
+     ESequenceStart 0%N None; EMappingStart 0%N None; null_ev; null_ev; EMappingEnd;
+       ESequenceStart 0%N None; EMappingStart 0%N None; null_ev; null_ev; EMappingEnd;
+         ESequenceStart 0%N None; EMappingStart 0%N None; null_ev; null_ev; EMappingEnd;
+         ESequenceEnd;
+       ESequenceEnd;
+     ESequenceEnd; EDocumentEnd; EStreamEnd]
+  /\ snd (parse_tokens (qflow_tokens 3) SEnded false) = PDone
+  /\ max_nesting (evs_of (fst (parse_tokens (qflow_tokens 3) SEnded false))) = 4.
+Proof. vm_compute. repeat split; reflexivity. Qed.
+(* beyond the limit of the code: 300 nested sequences at flow level 1 *)
+Example C11_bypass_300 :
+  tok_flow_max (qflow_tokens 300) = 1
+  /\ snd (parse_tokens (qflow_tokens 300) SEnded false) = PDone
+  /\ N.to_nat Consts.FLOW_LEVEL_MAX < max_nesting (evs_of (fst (parse_tokens (qflow_tokens 300) SEnded false))).
+Proof. vm_compute. repeat split; apply PeanoNat.Nat.leb_le; vm_compute; reflexivity. Qed.
